@@ -550,7 +550,18 @@ def d6(ctx, rep):
     gens = [f for f in prog.functions.values() if f.module.name == 'copulas.datasets' and f.outer is None
             and not f.name.startswith('_')]
     rep.floor('D6.scope', 'public dataset generators', len(gens), 8)
+    rep.rule('D6.fresh', 'a dataset generator builds its table on every call: it is not wrapped in a memoising decorator that hands the same mutable object to every caller')
     for g in sorted(gens, key=lambda f: f.qualname):
+        memo = None
+        for d_ in g.node.decorator_list:
+            q_ = prog.resolve(g.module, d_.func if isinstance(d_, ast.Call) else d_) or ''
+            if q_ in ('functools.lru_cache', 'functools.cache'):
+                memo = d_
+        if memo is not None:
+            rep.bad('D6.fresh', g, memo, f'`@{short(memo, 40)}`: every call with the same (size, seed) returns the same Series/DataFrame object; a caller that edits its table in place '
+                    'changes what the next call returns, so the output is no longer a function of (size, seed)', construct=f'{g.node.name}: built on every call')
+        else:
+            rep.ok('D6.fresh', g, g.node.name, 'no memoising decorator', construct=f'{g.node.name}: built on every call')
         seedp = 'seed' if 'seed' in g.params else None
         sites = [s for s in rng.sites[g.qualname] if s.kind == 'consume']
         for s in sites:
